@@ -106,9 +106,8 @@ Proof. vm_compute. reflexivity. Qed.
    ([lexq], [unq], [inlen] -- the nested scanner, strconv.Unquote and the length used for error positions --
    are arbitrary: this path never consults them.)
    PARTIAL with respect to the design's body_text_spec: T is the whole input (so "//" at the very start is a
-   comment) and contains no tag; bodies with the special-character commands are C15_body_special_chars_spec
-   below (comment-free stretches); {literal} blocks and comments next to tags are not covered by a theorem and
-   stay with the rendering check of the harness. *)
+   comment) and contains no tag; the statement for bodies in which comments, special-character commands and
+   {literal} blocks mix is C15_body_text_spec below, and C15_template_body_text_spec for a body inside {template}. *)
 Theorem C15_body_text_spec_partial : forall inlen lexq unq T out,
   plain T -> body_text true T = Some out ->
   exists items pos nodes st,
@@ -156,8 +155,7 @@ Print Assumptions C15_slashes_after_nonspace.
    concatenated, are  normalize T0 ++ char(c1) ++ normalize T1 ++ ... : each stretch normalised as a whole with
    no flagged end, each command giving exactly its character ({nil}: nothing), each literal block its text s
    verbatim (lexLiteral with strings.Index; no normalisation).  Stretches may be empty.
-   NOT covered (the remaining gap to the design's body_text_spec): comments inside a body that also contains
-   tags (comments are covered for bodies without tags: C15_body_text_spec_partial), "{literal }" with spaces. *)
+   Comments inside such a body: C15_body_text_spec below.  NOT covered: "{literal }" with spaces. *)
 Theorem C15_body_special_chars_spec : forall inlen lexq unq T0 rest,
   stretch_ok true T0 -> Forall seg_ok rest ->
   exists items pos nodes st,
